@@ -89,7 +89,8 @@ contract("qubovert.utils._dict_arithmetic:DictArithmetic.__init__", props=["C05"
          call_when=_shape_init,
          requires=["is_empty(self)", "len(args) == 0 or keysvalid(self, args[0])", "len(args) == 0 or distinct(self, args[0])"],
          returns="none", modifies=["self"],
-         ensures=["den(self) == (den_as(self, args[0]) if len(args) == 1 else 0)", "wf(self)"],
+         ensures=["den(self) == (den_as(self, args[0]) if len(args) == 1 else 0)", "wf(self)",
+                  "len(args) == 1 or is_empty(self)"],
          loops={1: {"invariant": "den(self) == den_as(self, visited) and wf(self)"}})
 
 contract("qubovert.utils._pubomatrix:PUBOMatrix.clear", props=["C05", "C14"],
@@ -110,20 +111,20 @@ def _others(c):
 for op, sign in (("__iadd__", "+"), ("__isub__", "-")):
     contract("qubovert.utils._dict_arithmetic:DictArithmetic." + op, props=["C05"],
              instances=[{"self": "model:" + c, "other": o} for c in ALL for o in _others(c)],
-             requires=["wf(self)", "typeis(other, 'number') or keysvalid(self, other)",
-                       "typeis(other, 'number') or distinct(self, other)"],
+             requires=["wf(self)", "isnumber(other) or keysvalid(self, other)",
+                       "isnumber(other) or distinct(self, other)"],
              returns="param:self", modifies=["self"],
-             ensures=["den(self) == old(den(self)) %s (other if typeis(other, 'number') else den_as(self, other))" % sign,
+             ensures=["den(self) == old(den(self)) %s (other if isnumber(other) else den_as(self, other))" % sign,
                       "wf(self)", "result is self"],
              loops={1: {"invariant": "den(self) == old(den(self)) %s den_as(self, visited) and wf(self)" % sign}})
 
 contract("qubovert.utils._dict_arithmetic:DictArithmetic.__imul__", props=["C05"],
          instances=[{"self": "model:" + c, "other": o} for c in PTYPES for o in _others(c)] +
                    [{"self": "model:" + c, "other": "real"} for c in ("QUBO", "QUSO", "QUBOMatrix", "QUSOMatrix")],
-         requires=["wf(self)", "typeis(other, 'number') or keysvalid(self, other)",
-                   "typeis(other, 'number') or distinct(self, other)"],
+         requires=["wf(self)", "isnumber(other) or keysvalid(self, other)",
+                   "isnumber(other) or distinct(self, other)"],
          returns="param:self", modifies=["self"],
-         ensures=["den(self) == old(den(self)) * (other if typeis(other, 'number') else den_as(self, other))",
+         ensures=["den(self) == old(den(self)) * (other if isnumber(other) else den_as(self, other))",
                   "wf(self)", "result is self"],
          loops={1: {"invariant": "den(self) == den_as(self, visited) * den_as(self, other) and wf(self)"},
                 2: {"invariant": "den(self) == den_as(self, visited1) * den_as(self, other) + "
@@ -131,3 +132,48 @@ contract("qubovert.utils._dict_arithmetic:DictArithmetic.__imul__", props=["C05"
                 3: {"invariant": "den(self) == den_as(self, coll) + (other - 1) * den_as(self, visited) and wf(self) and "
                                  "forall_key(lambda q: implies(not has(visited, q), has(self, q) == has(coll, q) and "
                                  "lookup(self, q) == lookup(coll, q)))"}})
+
+contract("qubovert.utils._dict_arithmetic:DictArithmetic.__itruediv__", props=["C05"],
+         instances=[{"self": "model:" + c, "other": "real"} for c in ALL],
+         requires=["wf(self)", "other != 0"],
+         returns="param:self", modifies=["self"],
+         ensures=["den(self) * other == old(den(self))", "wf(self)", "result is self"],
+         loops={1: {"invariant": "den(self) * other == den_as(self, coll) * other + (1 - other) * den_as(self, visited) and wf(self) and "
+                                 "forall_key(lambda q: implies(not has(visited, q), has(self, q) == has(coll, q) and "
+                                 "lookup(self, q) == lookup(coll, q)))"}})
+
+contract("qubovert.utils._dict_arithmetic:DictArithmetic.__ipow__", props=["C05"],
+         instances=[{"self": "model:" + c, "exponent": "const:%d" % e} for c in PTYPES for e in (1, 2, 3)] +
+                   [{"self": "model:" + c, "exponent": "const:1"} for c in ("QUBO", "QUSO", "QUBOMatrix", "QUSOMatrix")],
+         requires=["wf(self)"],
+         returns="param:self", modifies=["self"],
+         ensures=["den(self) == old(den(self)) ** exponent", "wf(self)", "result is self"],
+         note="exponents 1..3 (concretely unrolled); symbolic exponents are left to the bounded stand-in")
+contract("qubovert.utils._dict_arithmetic:DictArithmetic.__ipow__#err", props=["C05"], trusted=True,
+         instances=[], note="placeholder") if False else None
+
+# ---------------------------------------------------------------------------------- copying wrappers
+def _wrap(name, instances, ens, extra_req=()):
+    contract("qubovert.utils._dict_arithmetic:DictArithmetic." + name, props=["C05"],
+             instances=instances,
+             requires=["wf(self)"] + list(extra_req),
+             returns=lambda env, eng: "fresh:model:" + env["self"].cls.name,
+             ensures=[ens, "wf(result)", "isfresh(result)", "sameclass(result, self)"])
+
+
+_OTH = "(other if isnumber(other) else den_as(self, other))"
+_REQ = ["isnumber(other) or keysvalid(self, other)", "isnumber(other) or distinct(self, other)"]
+_all_oth = [{"self": "model:" + c, "other": o} for c in ALL for o in _others(c)]
+_p_oth = [{"self": "model:" + c, "other": o} for c in PTYPES for o in _others(c)] + \
+         [{"self": "model:" + c, "other": "real"} for c in ("QUBO", "QUSO", "QUBOMatrix", "QUSOMatrix")]
+_wrap("__add__", _all_oth, "den(result) == den(self) + " + _OTH, _REQ)
+_wrap("__radd__", _all_oth, "den(result) == den(self) + " + _OTH, _REQ)
+_wrap("__sub__", _all_oth, "den(result) == den(self) - " + _OTH, _REQ)
+_wrap("__rsub__", _all_oth, "den(result) == " + _OTH + " - den(self)", _REQ)
+_wrap("__mul__", _p_oth, "den(result) == den(self) * " + _OTH, _REQ)
+_wrap("__rmul__", _p_oth, "den(result) == den(self) * " + _OTH, _REQ)
+_wrap("__truediv__", [{"self": "model:" + c, "other": "real"} for c in ALL], "den(result) * other == den(self)", ["other != 0"])
+_wrap("__pow__", [{"self": "model:" + c, "exponent": "const:%d" % e} for c in PTYPES for e in (1, 2, 3)],
+      "den(result) == den(self) ** exponent")
+_wrap("__neg__", [{"self": "model:" + c} for c in ALL], "den(result) == -den(self)")
+_wrap("__pos__", [{"self": "model:" + c} for c in ALL], "den(result) == den(self)")
